@@ -89,6 +89,37 @@ func Load(dir string, tests bool, goarch string, overlay map[string][]byte) (*Pr
 		pp := FuncPkgPath(fn)
 		p.byPkg[pp] = append(p.byPkg[pp], fn)
 	}
+	// unique-caller argument map for unexported module functions
+	UniqueCallerArg = map[*ssa.Parameter]ssa.Value{}
+	sites := map[*ssa.Function][]ssa.CallInstruction{}
+	for key, fn := range p.funcs {
+		if !strings.HasPrefix(key, ModPath) || len(fn.Blocks) == 0 {
+			continue
+		}
+		if strings.HasSuffix(p.Fset.Position(fn.Pos()).Filename, "_test.go") {
+			continue
+		}
+		for _, b := range fn.Blocks {
+			for _, in := range b.Instrs {
+				if ci, ok := in.(ssa.CallInstruction); ok {
+					if callee := ci.Common().StaticCallee(); callee != nil && InModule(callee) {
+						sites[callee] = append(sites[callee], ci)
+					}
+				}
+			}
+		}
+	}
+	for callee, cs := range sites {
+		if len(cs) != 1 || callee.Parent() != nil || callee.Object() == nil || callee.Object().Exported() {
+			continue
+		}
+		args := cs[0].Common().Args
+		for i, prm := range callee.Params {
+			if i < len(args) {
+				UniqueCallerArg[prm] = args[i]
+			}
+		}
+	}
 	for k := range p.byPkg {
 		fs := p.byPkg[k]
 		sort.Slice(fs, func(i, j int) bool { return FuncKey(fs[i]) < FuncKey(fs[j]) })
@@ -273,4 +304,27 @@ func (p *Prog) ConstStr(pkg, name string) (string, bool) {
 		return "", false
 	}
 	return constStr(c.Val())
+}
+
+// UniqueCallerArg maps a parameter of an unexported module function that has
+// exactly one (non-test) call site to the argument passed there.
+var UniqueCallerArg = map[*ssa.Parameter]ssa.Value{}
+
+// StripX is Strip that additionally follows parameters of unexported
+// functions with a single call site to the caller's argument (so that an
+// extracted helper method is seen through).
+func StripX(v ssa.Value) ssa.Value {
+	for i := 0; i < 16; i++ {
+		v = Strip(v)
+		p, ok := v.(*ssa.Parameter)
+		if !ok {
+			return v
+		}
+		a, ok := UniqueCallerArg[p]
+		if !ok {
+			return v
+		}
+		v = a
+	}
+	return v
 }
